@@ -60,6 +60,10 @@ def chunksGo {α : Type} (n : Nat) : Nat → List α → List (List α)
 def chunks {α : Type} (l : List α) (n : Nat) : Res (List (List α)) :=
   if n = 0 then .panic else .ok (chunksGo n l.length l)
 
+/-- `format!("…{}…", args…)`: some string determined by the template and the arguments (the text of a message is not
+part of any property) -/
+def format (tmpl : String) (args : List Nat) : String := tmpl ++ toString args
+
 theorem chunks_ok {α : Type} {l : List α} {n : Nat} (h : 0 < n) : chunks l n = .ok (chunksGo n l.length l) := by
   simp [chunks, Nat.ne_of_gt h]
 
